@@ -267,6 +267,9 @@ func c19Scenario(c *wk.Ctx, idx int64, r *rand.Rand) (nontrivial string, viol bo
 		}
 	}
 	c.Obs("pings", int64(n))
+	if c.WantSample() && !viol && n <= 3 {
+		c.Sample(cs())
+	}
 	var ks []string
 	for k := range kinds {
 		ks = append(ks, k)
